@@ -509,3 +509,53 @@ Proof.
   destruct (encode_echo_reply_ok id sq (sub sv (fst dr) (snd dr))) as (pl & Epl). rewrite Epl. cbn [obind].
   eexists. reflexivity.
 Qed.
+
+(** the replies the socket sends are exactly the echo handler's answers to the SCMP packets of
+    the stream, one per answered packet, in arrival order *)
+Lemma replies_exact we b pkts :
+  no_panic (recv_stream we b pkts) ->
+  replies_of (recv_stream we b pkts)
+  = flat_map (fun vp : bytes * dppath =>
+                if we && is_scmp (fst vp)
+                then match echo_handle (fst vp) (snd vp) with Ok o => opt_list o | _ => [] end
+                else []) pkts.
+Proof.
+  induction pkts as [|[v p] r IH]; intros NP; [reflexivity|].
+  rewrite recv_stream_cons in *. inversion NP as [|x l Hx' Hl]; subst.
+  pose proof (is_ok_not_panic _ Hx') as Hx.
+  rewrite Hx in *. specialize (IH Hl).
+  unfold replies_of in *. cbn [flat_map fst snd]. rewrite IH. f_equal.
+  clear IH Hl NP Hx. rewrite recv_step_alt in *. unfold is_scmp.
+  destruct (nh_of v) as [n| |]; cbn [obind] in *; try (destruct we; reflexivity).
+  destruct (n =? PROTO_UDP) eqn:U.
+  - apply N.eqb_eq in U. subst n. rewrite proto_udp_ne_scmp. rewrite andb_false_r.
+    unfold obind. destruct (recv_udp b v); reflexivity.
+  - destruct (n =? PROTO_SCMP); [|rewrite andb_false_r; reflexivity].
+    unfold handlers_run, obind in *. destruct (err_handle v) as [o| |]; try discriminate Hx'.
+    destruct we; [destruct (echo_handle v p) as [ro| |]|]; try discriminate Hx'; try reflexivity.
+Qed.
+
+(** * 7. no SCMP error is answered by the simulator or the gateway *)
+
+Lemma sim_no_reply_to_errors v p sv ty :
+  is_scmp v = true -> as_scmp v = Ok (Some sv) -> scmp_type sv = Ok ty -> ty < SIM_ERROR_TYPE_BOUND ->
+  sim_reply_target v p = Ok None.
+Proof.
+  unfold is_scmp, nh_of, sim_reply_target. intros Hn Ha Ht Hlt.
+  destruct (pkt_header v) as [hv| |]; cbn [obind] in *; try discriminate.
+  destruct (hv_next_header hv) as [nh| |]; cbn [obind] in *; try discriminate.
+  apply N.eqb_eq in Hn. subst nh.
+  assert (E1 : (PROTO_SCMP =? PROTO_UDP) = false) by reflexivity. rewrite E1, N.eqb_refl.
+  rewrite Ha. cbn [obind]. rewrite Ht. cbn [obind].
+  destruct (ty <? SIM_ERROR_TYPE_BOUND) eqn:E; [|lia]. rewrite orb_true_r. reflexivity.
+Qed.
+
+Lemma gateway_no_reply_to_errors d v rest hv ty r :
+  try_from_slice KRaw d = Ok (v, rest) -> pkt_header v = Ok hv -> hv_next_header hv = Ok PROTO_SCMP ->
+  pkt_payload v = Ok (ty :: r) -> ty < GW_ERROR_TYPE_BOUND ->
+  gateway_suppresses false d = Ok true.
+Proof.
+  intros H1 H2 H3 H4 H5. unfold gateway_suppresses. rewrite H1. cbn [obind fst]. rewrite H2. cbn [obind].
+  rewrite H3. cbn [obind]. rewrite N.eqb_refl. cbn [negb]. rewrite H4. cbn [obind].
+  destruct (ty <? GW_ERROR_TYPE_BOUND) eqn:E; [reflexivity|lia].
+Qed.
